@@ -78,8 +78,8 @@ MUTATIONS = [
          old="        ishift = [max(i // 2 - o // 2, 0) for i, o in zip(ishape1, oshape1)]",
          new="        ishift = [max((i + 1) // 2 - (o + 1) // 2, 0) for i, o in zip(ishape1, oshape1)]"),
     dict(name="c09-blocks-guard", file="sigpy/block.py", props=["C09"],
-         old="@nb.jit(nopython=True, cache=True)  # pragma: no cover\ndef _blocks_to_array1(",
-         new="@nb.jit(nopython=True)  # pragma: no cover\ndef _blocks_to_array1("),
+         old="                nx = (ix - bx) // Sx\n                if nx >= 0 and nx < Nx:\n                    output[b, ix] += input[b, nx, bx]",
+         new="                nx = (ix - bx) // Sx\n                if nx >= 0 and nx <= Nx - 1 - (Nx > 3):\n                    output[b, ix] += input[b, nx, bx]"),
     # ---- C10
     dict(name="c10-iwt-mode", file="sigpy/wavelet.py", props=["C10"],
          old="    output = pywt.waverecn(input, wave_name, mode=\"zero\", axes=axes)",
